@@ -68,14 +68,19 @@ def cases(draw):
     drop = []
     if len(names) >= 1 and draw(st.sampled_from([0, 0, 0, 1])):
         drop = draw(st.lists(st.sampled_from(names), min_size=1, max_size=len(names), unique=True))
-    return {"dcop": desc, "infinity": inf, "assignment": assignment, "drop": drop}
+    return {"dcop": desc, "infinity": inf, "assignment": assignment, "drop": drop,
+            # the DCOP is built in two steps, with a cost query in between (one object, two states): nothing may be
+            # remembered from the first query
+            "grow": draw(st.booleans()),
+            # the constraints are handed to assignment_cost as a list, a tuple, a dict view or a one-shot iterator
+            "iterable": draw(st.sampled_from(["list", "tuple", "values", "iter", "generator"]))}
 
 
 def case_strategy(tier):
     return cases()
 
 
-def build_dcop_with_externals(desc):
+def build_dcop_with_externals(desc, grow=False):
     from pydcop.dcop.dcop import DCOP
     from pydcop.dcop.objects import ExternalVariable
     domains = build.build_domains(desc)
@@ -84,6 +89,22 @@ def build_dcop_with_externals(desc):
     allv = dict(variables)
     allv.update(externals)
     constraints = {c["name"]: build.build_constraint(desc, c, allv) for c in desc["constraints"]}
+    if grow and not externals and len(constraints) >= 1:
+        # incremental construction: all constraints but the last, a cost query, then the last constraint and the
+        # variables no constraint mentions
+        dcop = DCOP("c13", desc["objective"])
+        cs = list(constraints.values())
+        for c in cs[:-1]:
+            dcop.add_constraint(c)
+        try:
+            dcop.solution_cost({n: v.domain.values[0] for n, v in dcop.variables.items()}, 10000)
+        except ValueError:
+            pass
+        dcop.add_constraint(cs[-1])
+        for n, v in variables.items():
+            if n not in dcop.variables:
+                dcop.add_variable(v)
+        return dcop, variables, constraints
     dcop = DCOP("c13", desc["objective"], domains=domains, variables=dict(variables), constraints=constraints)
     dcop.external_variables = externals
     return dcop, variables, constraints
@@ -99,7 +120,7 @@ def run_case(case):
         labels.append("externals")
     try:
         with under_test():
-            dcop, variables, constraints = build_dcop_with_externals(desc)
+            dcop, variables, constraints = build_dcop_with_externals(desc, case.get("grow", False))
         if case["drop"]:
             nontrivial = len(desc["variables"]) >= 2
             try:
@@ -140,9 +161,18 @@ def run_case(case):
                 if n not in scoped and n in full:
                     scoped.append(n)
         vsum = sum(oracles.var_cost(desc, oracles.var_desc(desc, n), full[n]) for n in scoped)
+        form = case.get("iterable", "list")
+
+        def given_as():
+            cs = list(constraints.values())
+            return {"list": cs, "tuple": tuple(cs), "values": constraints.values(), "iter": iter(cs),
+                    "generator": (c for c in cs)}[form]
+        labels.append("constraints-as:" + form)
+        if case.get("grow"):
+            labels.append("grown")
         with under_test():
-            a0 = assignment_cost(dict(env), list(constraints.values()))
-            a1 = assignment_cost(dict(env), list(constraints.values()), consider_variable_cost=True)
+            a0 = assignment_cost(dict(env), given_as())
+            a1 = assignment_cost(dict(env), given_as(), consider_variable_cost=True)
             # missing values may be given as keyword arguments
             a2 = assignment_cost(dict(full), list(constraints.values()), **extvals) if extvals else a0
         a0, a1, a2 = (x.item() if hasattr(x, "item") else x for x in (a0, a1, a2))
